@@ -17,6 +17,7 @@ import Driver.C07
 import Driver.C14
 import Driver.C17
 import Driver.C18
+import Driver.Sys
 open Driver
 
 def machines : List (String × Machine × Machine) :=
@@ -39,7 +40,8 @@ def machines : List (String × Machine × Machine) :=
    ("C07", C07.machine, C07.judge),
    ("C14", C14.machine, C14.judge),
    ("C17", C17.machine, C17.judge),
-   ("C18", C18.machine, C18.judge)]
+   ("C18", C18.machine, C18.judge),
+   ("SYS", Sys.machine, Sys.judge)]
 
 def main (args : List String) : IO UInt32 := do
   match args with
